@@ -134,6 +134,10 @@ func runLoaderCase(root string, c *loaderCase, n int) {
 			write(d+"/sub/empty.toml", "")
 		case "foreign":
 			write(d+"/foreign.toml", cfgText(77, 3, 0x9999, 0x1, 0x1))
+			// identifiers that are zero in part only are identifiers like any other: neither the device's nor the default
+			write(d+"/zz_partial_bus.toml", cfgText(79, 6, 0, 0, 0))
+			write(d+"/00_partial_version.toml", cfgText(80, 0, 0, 0, 0x0111))
+			write(d+"/zz_partial_vendor.toml", cfgText(81, 3, 0x1234, 0, 0))
 		case "nested_foreign":
 			os.MkdirAll(filepath.Join(dir, "hidi-config", d, "sub"), 0o777)
 			write(d+"/sub/foreign.toml", cfgText(78, 3, 0x9999, 0x2, 0x1))
